@@ -1,8 +1,10 @@
 (* C20 -- what is NOT freed: a set of objects each of which is the target of
    an ordinary (non-connection) strong edge from a member of the set stays
-   allocated for ever, whatever handles are released.  Instances: a TimerQueue
-   with a pending TimerSlot (driver.rs:20 <-> :27), and -- in the pinned
-   schema -- a channel whose buffer holds a connection to itself. *)
+   allocated for ever, whatever handles are released.  This is why the schema
+   has to be acyclic apart from gate connections.  Instances, both in the
+   pinned schema only: a TimerQueue with a pending TimerSlot that holds an
+   Arc to it (before fix 012bc88), and a channel whose buffer holds a
+   connection to itself (before fix 6ce5d8e). *)
 From Coq Require Import List NArith Arith Bool Lia.
 From DesVerif Require Import Own.Heap Own.Frame Own.Inv Own.Shape Own.Rank.
 Import ListNotations.
@@ -59,7 +61,7 @@ Proof.
   pose proof (i_cnt _ _ I' o Ho) as Hc. unfold rc_of in Hc. rewrite E, cnt_nil in Hc. apply cnt_pos_in in Hin. lia.
 Qed.
 
-(* the timer instance: a queue [q] that lists slot [sl] as pending, which points back at it *)
+(* the timer instance (pinned schema): a queue [q] that lists slot [sl] as pending, which holds a strong handle back *)
 Definition timer_pair (h : heap) (q sl : nat) : Prop :=
   (exists qb e, nth_error h q = Some qb /\ In e (strong qb) /\ et e = sl /\ is_conn (ek e) = false) /\
   (exists sb e, nth_error h sl = Some sb /\ In e (strong sb) /\ et e = q /\ is_conn (ek e) = false).
@@ -73,17 +75,3 @@ Proof.
   split; (eapply supported_survives; [exact I|exact Sup|]); [left|right]; reflexivity.
 Qed.
 
-(* conversely, whatever survives in a well-formed heap hangs on a surviving timer object *)
-Theorem survivors_supported s roots : good false s roots ->
-  let h' := hp (release_all s roots) in
-  supported (fun o => is_live h' o = true) h'.
-Proof.
-  intros G h' o Lo. pose proof (good_release_all _ _ _ G) as [I' T' O']. fold h' in T', O'.
-  unfold is_live in Lo. destruct (nth_error h' o) as [ob|] eqn:E; [|discriminate].
-  destruct (has_pred _ o ob I' E Lo) as (p & pb & e & Ep & Hin & Het). fold h' in Ep.
-  pose proof (has_edges_live _ _ _ _ _ I' Ep Hin) as Lp.
-  exists p, pb, e. split; [unfold is_live; rewrite Ep; assumption|]. repeat split; try assumption.
-  destruct (is_conn (ek e)) eqn:C; [exfalso|reflexivity].
-  destruct (T' _ _ _ Ep Hin) as (tb & Et & Ok). pose proof (edge_ok_conn _ _ _ _ Ok C) as Hg.
-  pose proof (all_freed s roots G p pb Ep Lp) as Tm. rewrite Hg in Tm. discriminate.
-Qed.
